@@ -175,6 +175,20 @@ func randCMap(r *rng) *cmFile {
 			}
 			b.entries = append(b.entries, e)
 		}
+		if k != "codespacerange" && len(b.entries) > 0 && len(b.entries) < 99 && r.chance(1, 4) {
+			// a code and its extension by zero bytes in one table, the longer one written first (<0500> before <05>):
+			// tables are sorted by the bytes of the code
+			src := b.entries[r.intn(len(b.entries))]
+			if len(src.a) < 4 && !used[k+string(append(append([]byte{}, src.a...), 0))] {
+				ext := src
+				ext.a = append(append([]byte{}, src.a...), 0)
+				ext.b = append(append([]byte{}, src.b...), 0)
+				if bytes.Compare(ext.a, ext.b) <= 0 {
+					used[k+string(ext.a)] = true
+					b.entries = append([]cmEntry{ext}, b.entries...)
+				}
+			}
+		}
 		if len(b.entries) > 0 && len(b.entries) < 100 && r.chance(1, 5) {
 			// the same mapping written twice (files do this): both entries are kept; being identical, their order
 			// among each other does not matter
@@ -352,6 +366,14 @@ func cmapCase(o *suiteOut, line string) {
 		}
 	} else if err == nil && pan == "" {
 		o.fail("C07", "a block with a "+fault+" fault is rejected with an error instead of being stored", line, "error", "accepted")
+	}
+	if fault != "none" && fault != "big" && err != nil {
+		// a read that failed half-way leaves nothing behind: the next file, which lacks begincmap, is rejected as ever
+		next := randCMap(newRng(seed + 1)).render(newRng(seed+1), "nobegincmap")
+		if d2, err2, _ := readCMapSafe(next); err2 == nil {
+			o.fail("C07", "a file without begincmap is rejected, whatever was read (and rejected) before it", line+" then nobegincmap", "error", fmt.Sprint(len(d2), " entries accepted"))
+		}
+		o.count("rejected file followed by a file without begincmap")
 	}
 	o.emit(line, "skip", true)
 	o.count("fault " + fault)
